@@ -11,7 +11,8 @@ RULE = ("join (left join) and full_join on the C09 scopes, judged by the Lean mo
         "methods - this realises every subset of unmatched rows on each side, first-row-unmatched, duplicated unmatched keys "
         "and empty sides; every full_join case is also run as full_join(R, L) and the two results must have the same rows up "
         "to column and row order; random cases as for C09 up to 40x40; small malformed stream; inputs snapshotted before/after. "
-        "non-trivial = both sides non-empty, the call returned, and some key matches or repeats")
+        "non-trivial = both sides non-empty, the call returned, and some key matches or repeats"
+        ' Further families (joincommon.extra_cases): key lists in another order than the stored columns / with a column listed twice / mixing names, own vectors and external copies, right key columns stored in another order; one table joined with itself on DIFFERENT key columns; two tables keyed by the same external key vector objects; a join, then columns renamed through a view or rename_column (by the new name, by the old name = refused, names exchanged with a payload column), payload cells edited in place or the key column replaced by attribute assignment, then the judged join; sides and single buckets beyond 1000 rows; wide tables with interleaved key columns; key names that are no identifiers or read alike (NFC/NFD, trailing blank, case); zero-row sides without any column; datetime key columns holding raw dates.')
 ASSUMPTIONS = ["as for C09: hashable ladder-type keys, validation mirrored and not judged, key equality supplied by Python ==/hash"]
 TRUSTED = ["Table construction from Vector(list, name=...) and Table.cols()/column_names()/Vector.schema() used to build and "
            "observe the inputs and the result"]
@@ -54,6 +55,9 @@ def generate(rng, tier):
     yield from jc.self_joins("left", kinds=("left",), expects=["many_to_many"])
     yield from jc.self_joins("full", kinds=("full",), expects=["many_to_many"])
     yield from jc.malformed_stream(rng, ["left", "full"], 240 if not thorough else 2400, "outer.malformed")
+    # further shapes / states (see joincommon.extra_cases); every full_join case also runs swapped
+    yield from jc.extra_cases(rng, "outer", ["left", "full"], ["many_to_many", "many_to_many", "many_to_many", "one_to_many", "many_to_one"],
+                              swap=True, scale=1 if not thorough else 10)
     if not thorough:
         yield from _random(rng, 30000)
         return
